@@ -302,7 +302,7 @@ func (d *syslogRFC5424Decoder) parseStructuredData(data []byte) (SyslogSD, int, 
 
 			switch {
 			case b == ']':
-				if data[idx-1] != '"' {
+				if idx == 0 || data[idx-1] != '"' {
 					return nil, 0, false
 				}
 				wasClose = true
